@@ -6,6 +6,12 @@
 // integers, `int` as Nat (lengths and offsets only; subtraction only between constants), []byte as List UInt8,
 // make/len/append/composite literals, index and slice expressions, binary.BigEndian.{Put,}Uint{16,32}, calls of
 // other translated methods of the same receiver. No loops, no closures, no maps.
+// Streaming decoders: a parameter of type *ringbuffer.RingBuffer is a mutable variable of the model's type `Ring`
+// (OAP/Model/Ring.lean, written after the library's source) that is threaded like a written pointer receiver and returned
+// in the result tuple; buffer.Length() is pure, buffer.PeekUint8/16/32() are binds on the model's `Res`-valued
+// Ring.peekUintN, buffer.Retrieve(n) is a statement, `f, e := buffer.Peek(n)` defines the two slices. In such a function
+// the state (receiver, ring) survives a returned error, so the `error` result is a component of the tuple
+// (`Option String`) rather than `Res.err`; `Res.panic` remains the run-time panic.
 package main
 
 import (
@@ -121,6 +127,7 @@ type translated struct {
 }
 
 var fnTable = map[string]translated{} // "v1.Header.IsUnknownPacket" -> …
+var usesRing = false                  // some translated function takes a ring buffer: Gen/Funcs.lean imports OAP.Model.Ring
 
 type ftr struct {
 	tx
@@ -136,6 +143,30 @@ type ftr struct {
 	fresh   int
 	fail    string
 	hoisted []string
+	rings   []string // parameters of type *ringbuffer.RingBuffer (Lean type Ring), in declaration order
+	errVal  bool     // error results are tuple components (functions whose state survives an error)
+}
+
+func isRingType(e ast.Expr) bool {
+	st, ok := e.(*ast.StarExpr)
+	return ok && exprText(st.X) == "ringbuffer.RingBuffer"
+}
+
+// ringCall recognises `<ring variable>.<method>(args)`
+func (f *ftr) ringCall(e ast.Expr) (ring, method string, args []ast.Expr, ok bool) {
+	ce, isCall := e.(*ast.CallExpr)
+	if !isCall {
+		return
+	}
+	se, isSel := ce.Fun.(*ast.SelectorExpr)
+	if !isSel {
+		return
+	}
+	id, isId := se.X.(*ast.Ident)
+	if !isId || f.vars[id.Name] != "Ring" {
+		return
+	}
+	return id.Name, se.Sel.Name, ce.Args, true
 }
 
 func (f *ftr) bad(format string, a ...interface{}) string {
@@ -328,6 +359,23 @@ func (f *ftr) hoist(e ast.Expr) string {
 					return
 				}
 			}
+			// methods of a ring parameter: Length() is pure, PeekUintN() is the model's Res-valued Ring.peekUintN
+			if ring, m, args, ok := f.ringCall(x); ok {
+				switch {
+				case m == "Length" && len(args) == 0:
+					f.ren[key] = [2]string{"(Ring.length " + lname(ring) + ")", "Nat"}
+					f.hoisted = append(f.hoisted, key)
+				case (m == "PeekUint8" || m == "PeekUint16" || m == "PeekUint32") && len(args) == 0:
+					n := strings.TrimPrefix(m, "PeekUint")
+					t := f.tmp()
+					pre += fmt.Sprintf("Res.bind (Ring.peekUint%s %s) fun %s =>\n", n, lname(ring), t)
+					f.ren[key] = [2]string{t, "UInt" + n}
+					f.hoisted = append(f.hoisted, key)
+				default:
+					f.bad("ring method %s in an expression", m)
+				}
+				return
+			}
 			// method of the receiver that was translated before
 			if se, ok := x.Fun.(*ast.SelectorExpr); ok && exprText(se.X) == f.recv && len(x.Args) == 0 {
 				for _, rk := range f.recvKeys() {
@@ -483,6 +531,9 @@ func (f *ftr) assigned(n ast.Node) []string {
 					set[exprText(se.X)] = true
 				}
 			}
+			if ring, m, _, ok := f.ringCall(x); ok && m != "Length" && !strings.HasPrefix(m, "Peek") {
+				set[ring] = true // Retrieve (and any method outside the subset: the statement translator rejects it)
+			}
 		}
 		return true
 	})
@@ -550,6 +601,29 @@ func (f *ftr) block(stmts []ast.Stmt, tail func() string) string {
 		}
 		return fmt.Sprintf("let %s := %s %s 1\n", lname(id.Name), lname(id.Name), op) + cont()
 	case *ast.AssignStmt:
+		if len(x.Lhs) == 2 && len(x.Rhs) == 1 && x.Tok == token.DEFINE {
+			// f, e := buffer.Peek(n): the two slices of the model's Ring.peek
+			a, ok1 := x.Lhs[0].(*ast.Ident)
+			b, ok2 := x.Lhs[1].(*ast.Ident)
+			ring, m, args, ok3 := f.ringCall(x.Rhs[0])
+			if !ok1 || !ok2 || !ok3 || m != "Peek" || len(args) != 1 || a.Name == "_" || b.Name == "_" || a.Name == b.Name {
+				return f.bad("two-value definition %s", exprText(x.Rhs[0]))
+			}
+			if _, dup := f.vars[a.Name]; dup { // `:=` would ASSIGN an existing variable of the same scope
+				return f.bad("two-value definition re-uses %s", a.Name)
+			}
+			if _, dup := f.vars[b.Name]; dup {
+				return f.bad("two-value definition re-uses %s", b.Name)
+			}
+			pre, n := f.nat(args[0])
+			f.dropHoisted()
+			t := f.tmp()
+			out := pre + fmt.Sprintf("let %s : Bytes × Bytes := Ring.peek %s %s\n", t, lname(ring), n)
+			f.declare(a.Name, "Bytes")
+			f.declare(b.Name, "Bytes")
+			out += fmt.Sprintf("let %s : Bytes := %s.1\nlet %s : Bytes := %s.2\n", lname(a.Name), t, lname(b.Name), t)
+			return out + cont()
+		}
 		if len(x.Lhs) != 1 || len(x.Rhs) != 1 {
 			return f.bad("multi-assignment %s", exprText(x.Lhs[0]))
 		}
@@ -561,6 +635,9 @@ func (f *ftr) block(stmts []ast.Stmt, tail func() string) string {
 					ty = "Nat"
 					pre, rhs = f.exprAs(x.Rhs[0], "Nat")
 				}
+				if ty == "Ring" {
+					return f.bad("alias of the ring pointer %s", exprText(x.Rhs[0]))
+				}
 				f.dropHoisted()
 				f.declare(l.Name, ty)
 				return pre + fmt.Sprintf("let %s : %s := %s\n", lname(l.Name), leanTyText(ty), rhs) + cont()
@@ -568,6 +645,9 @@ func (f *ftr) block(stmts []ast.Stmt, tail func() string) string {
 			ty, ok := f.vars[l.Name]
 			if !ok {
 				return f.bad("assignment to unknown %s", l.Name)
+			}
+			if ty == "Ring" {
+				return f.bad("assignment to the ring pointer %s", l.Name)
 			}
 			if ty == "Err" {
 				if msg, ok := errMessage(f.pk, x.Rhs[0]); ok {
@@ -613,6 +693,10 @@ func (f *ftr) block(stmts []ast.Stmt, tail func() string) string {
 				d := lname(exprText(se.X))
 				return p1 + p2 + p3 + fmt.Sprintf("Res.bind (Bytes.putBE%s %s %s %s %s) fun %s =>\n", n, d, lo, hi, v, d) + cont()
 			}
+		}
+		if ring, m, args, ok := f.ringCall(x.X); ok && m == "Retrieve" && len(args) == 1 {
+			pre, n := f.nat(args[0])
+			return pre + fmt.Sprintf("let %s : Ring := Ring.retrieve %s %s\n", lname(ring), lname(ring), n) + cont()
 		}
 		return f.bad("expression statement %s", exprText(x.X))
 	case *ast.ReturnStmt:
@@ -767,9 +851,25 @@ func (f *ftr) ret(results []ast.Expr) string {
 	if f.recvPtr && f.recvW {
 		vals = append(vals, lname(f.recv))
 	}
+	for _, rg := range f.rings {
+		vals = append(vals, lname(rg))
+	}
 	errStatic, errDyn := "", ""
 	for i, r := range f.results {
 		e := results[i]
+		if r.ty == "Err" && f.errVal {
+			// the error is a component of the result: the receiver and the ring keep what was written before the return
+			if exprText(e) == "nil" {
+				vals = append(vals, "none")
+			} else if id, ok := e.(*ast.Ident); ok && f.vars[id.Name] == "Err" {
+				vals = append(vals, lname(id.Name))
+			} else if msg, ok := errMessage(f.pk, e); ok {
+				vals = append(vals, fmt.Sprintf("(some %q)", msg))
+			} else {
+				return f.bad("returned error %s", exprText(e))
+			}
+			continue
+		}
 		if r.ty == "Err" {
 			if exprText(e) == "nil" {
 				continue
@@ -844,9 +944,16 @@ func translateFunc(sp fspec) (string, string) {
 	})
 	for _, p := range fd.Type.Params.List {
 		ty := f.leanTypeOf(p.Type)
+		if isRingType(p.Type) {
+			ty = "Ring"
+		}
 		for _, n := range p.Names {
 			if !used[n.Name] {
 				continue
+			}
+			if ty == "Ring" {
+				f.rings = append(f.rings, n.Name)
+				f.errVal = true
 			}
 			if ty == "" {
 				return "", "parameter type " + exprText(p.Type)
@@ -894,9 +1001,14 @@ func translateFunc(sp fspec) (string, string) {
 	if f.recvPtr && f.recvW {
 		tys = append(tys, f.vars[f.recv])
 	}
+	for range f.rings {
+		tys = append(tys, "Ring")
+	}
 	for _, r := range f.results {
 		if r.ty != "Err" {
 			tys = append(tys, r.ty)
+		} else if f.errVal {
+			tys = append(tys, "Option String")
 		}
 	}
 	resTy := "Unit"
@@ -912,6 +1024,9 @@ func translateFunc(sp fspec) (string, string) {
 		recvTy = leanStruct[f.recvKey]
 	}
 	fnTable[key] = translated{lean: name, recvTy: recvTy, resTy: resTy}
+	if len(f.rings) > 0 {
+		usesRing = true
+	}
 	src := strings.Join(strings.Fields(sigText(fd)), " ")
 	indented := "  " + strings.ReplaceAll(strings.TrimRight(body, "\n"), "\n", "\n  ")
 	return fmt.Sprintf("/-- go/%s: %s -/\ndef %s%s : Res %s :=\n%s\n", sp.pkg, src, name, params, resTy, indented), ""
@@ -936,6 +1051,7 @@ func funcSpecs() []fspec {
 		{"protocol", "", "unmarshalStringLength"}, {"protocol", "", "marshalString"},
 		{"v1", "Header", "IsUnknownPacket"}, {"v1", "Header", "length"}, {"v1", "Header", "Pack"}, {"v1", "Header", "UnpackBytes"},
 		{"v2", "Header", "length"}, {"v2", "Header", "Pack"}, {"v2", "Header", "UnpackBytes"},
+		{"v1", "Header", "Unpack"}, {"v2", "Header", "Unpack"},
 	}
 }
 
@@ -943,8 +1059,7 @@ func funcSpecs() []fspec {
 func genFuncs() (string, []string) {
 	var w strings.Builder
 	lost := []string{}
-	w.WriteString("-- GENERATED by /verif/extract (funcs.go) from the Go source of /repo — do not edit; rewritten by every check run\n")
-	w.WriteString("import OAP.Base\nnamespace OAP.Gen.Fn\nopen OAP\n\n")
+	usesRing = false
 	for _, k := range []string{"protocol.Handshake", "v1.Header", "v2.Header"} {
 		parts := strings.SplitN(k, ".", 2)
 		fs := structOf(parts[0], parts[1])
@@ -975,5 +1090,10 @@ func genFuncs() (string, []string) {
 	}
 	fmt.Fprintf(&w, "/-- the functions translated in this run -/\ndef translated : List String := %s\n", q(names))
 	w.WriteString("end OAP.Gen.Fn\n")
-	return w.String(), lost
+	head := "-- GENERATED by /verif/extract (funcs.go) from the Go source of /repo — do not edit; rewritten by every check run\nimport OAP.Base\n"
+	if usesRing { // OAP/Model/Ring.lean imports OAP.Base only: no cycle
+		head += "import OAP.Model.Ring\n"
+	}
+	head += "namespace OAP.Gen.Fn\nopen OAP\n\n"
+	return head + w.String(), lost
 }
